@@ -228,7 +228,15 @@ func runTests(n *Node, dst reflect.Value, path string, out *SpecOut) {
 			p = ts.Opts.Path
 		}
 		out.cur, out.curIdx = n, i
-		out.add(p, ExpectedCode(n.Kind, ts), n.ZType())
+		switch ts.Complex {
+		case "hand", "sentinel":
+			// a hand-built issue says nothing but what its author wrote: no path (the map files it under $root), no type
+			out.add("", ts.Opts.Code, "")
+		case "handpath":
+			out.add(ts.Opts.Path, ts.Opts.Code, "")
+		default:
+			out.add(p, ExpectedCode(n.Kind, ts), n.ZType())
+		}
 	}
 }
 
